@@ -487,7 +487,22 @@ func judgePath(c *Case, o observation) *failure {
 			return nil
 		}
 	}
-	exp := alts[0]
+	// no acceptable shape matches: classify against each of them and report the narrowest verdict
+	// (a known-defect class, which carries a predicate after '/', before a generic one)
+	var first *failure
+	for _, a := range alts {
+		f := classifyPath(c, o, obs, a)
+		if first == nil {
+			first = f
+		}
+		if strings.Contains(f.Class, "/") {
+			return f
+		}
+	}
+	return first
+}
+
+func classifyPath(c *Case, o observation, obs []string, exp []expSeg) *failure {
 	what := fmt.Sprintf("%s: decoded segments %q, expected %s", o, obs, renderSegs(exp))
 	// known-defect predicates first (input predicate AND symptom)
 	if leadingEmpty(exp) {
